@@ -1,10 +1,16 @@
-(* The documented contract of /repo/README.md, typed in by hand ONCE.  Nothing in this file is generated
-   and nothing here looks at the implementation: it is what a user is told.  (Model.Config is imported
-   only for the names of the three enumerations.)
+(* The documented contract of /repo/README.md, typed in by hand.  Nothing in this file is generated and nothing here
+   looks at the implementation: it is what a user is told.  (Model.Config is imported only for the names of the three
+   enumerations.)  It is NOT trusted blindly: Generated/Readme.v is the README's markdown as data, rewritten from
+   /repo/README.md on every run, and Proofs/ReadmeFacts.v proves that the tables, lists and defaults below are exactly that
+   text (generated_readme_{ciphers,protocols,modes,transports,sections}_match_spec; obligations of C16).
 
    README sections transcribed:  "Transport" table, "Ciphers" table, the client config.json notes
-   (`mode`, `protocol`, `cipher`, `ssl`, `ws`, `quic`).  The alias "chacha20-ietf-poly1305" is the name
-   used by the repository's own configuration examples (config tests of client and server). *)
+   (`mode`, `protocol`, `cipher`, `ssl`, `ws`, `quic`).  Two things are not the README's tables verbatim:
+   the alias "chacha20-ietf-poly1305" is in no README table, it is the name used by the repository's own configuration
+   examples (config tests of client and server); and the last row of the Transport table, which the README spells
+   `ucp`, is read as `udp` (ReadmeFacts.readme_ucp_row_is_udp_quic).
+   What the README does not spell out and this file adds as the reading of a NAME: which AEAD / key size a cipher name
+   stands for, which sockets a mode name opens, which optional sections select which transport. *)
 From Coq Require Import String List Bool NArith.
 From Octo Require Import Model.Config.
 Import ListNotations.
@@ -96,7 +102,8 @@ Definition readme_client_listeners (m : lmode) : option (bool * bool) :=
 
 (* ---- Transport table -------------------------------------------------------------------------- *)
 (* Local-Peer tcp rows: every protocol over tcp | tls | ws | wss | quic.
-   Local-Peer udp rows: udp: Shadowsocks;  tcp: VMess;  tls: VMess Trojan;  ws: VMess;  wss: VMess Trojan;  quic: VMess Trojan *)
+   Local-Peer udp rows: udp: Shadowsocks;  tcp: VMess;  tls: VMess Trojan;  ws: VMess;  wss: VMess Trojan;  quic: VMess Trojan
+   (the README spells the Local-Peer cell of that last row `ucp`) *)
 Definition readme_tcp_transport (p : protocol) (t : transport) : bool :=
   match t with TTcp | TTls | TWs | TWss | TQuic => true | TUdp => false end.
 Definition readme_udp_transport (p : protocol) (t : transport) : bool :=
